@@ -187,14 +187,18 @@ def generate_synthetic(rng, index, tier):
                 steps.append({'op': 'restart'})
         elif r < 0.65 and n:
             steps.append({'op': 'mutate', 't': rng.randrange(n), 'set': gen_mutation(rng)})
-        elif r < 0.8 and n:
+        elif r < 0.77 and n:
             steps.append({'op': 'remove', 't': rng.randrange(n)})
+        elif r < 0.8 and n >= 2:
+            a, b = rng.sample(range(n), 2)
+            steps.append({'op': 'remove2', 't': a, 't2': b})
         elif r < 0.9 and late:
             steps.append({'op': 'add', 't': late.pop()})
         else:
             steps.append({'op': 'restart'})
     return {
-        'seed': rng.getrandbits(32), 'shape': 'synthetic', 'exec': {'delay_ms': [0, 0]},
+        'seed': rng.getrandbits(32), 'shape': 'synthetic',
+        'exec': {'delay_ms': [5, 20] if any(st['op'] == 'remove2' for st in steps) else [0, 0]},
         'transfers': pool, 'legacy': legacy, 'steps': steps,
         'poke': rng.sample(POKES, 3),
     }
@@ -250,6 +254,14 @@ def corpus_synthetic(tier):
     out.append(_synthetic([_rec('bob', 'a\\b', G.DOWNLOAD, 'QUEUED'), _rec('bob', 'a\\c', G.UPLOAD, 'UPLOADING')],
                           _adds(2) + [{'op': 'write', 'via': 'write_cache'}, {'op': 'remove', 't': 0},
                                       {'op': 'remove', 't': 1}, {'op': 'write', 'via': 'write_cache'}]))
+    # two overlapping removals (the one started first is the slower one and sits behind the other in the list)
+    trio = [_rec('bob', 'a\\one', G.DOWNLOAD, 'QUEUED'), _rec('bob', 'a\\two', G.DOWNLOAD, 'INCOMPLETE'),
+            _rec('carol', 'a\\three', G.UPLOAD, 'QUEUED'), _rec('dave', 'a\\four', G.DOWNLOAD, 'PAUSED')]
+    for first, second in ((1, 0), (3, 0), (3, 1), (1, 2)):
+        for tail in ([{'op': 'write', 'via': 'write_cache'}], [{'op': 'write', 'via': 'stop'}]):
+            out.append(_synthetic(trio, _adds(4) + [{'op': 'write', 'via': 'write_cache'},
+                                                    {'op': 'remove2', 't': first, 't2': second}] + tail + [{'op': 'restart'}],
+                                  exec={'delay_ms': [5, 20]}))
     # removal: written before, not written after (crash loses the removal); written after (gone)
     for tail in ([], [{'op': 'write', 'via': 'store_data'}], [{'op': 'write', 'via': 'stop'}]):
         out.append(_synthetic([_rec('bob', 'a\\b', G.DOWNLOAD, 'INCOMPLETE'), _rec('carol', 'a\\b', G.DOWNLOAD, 'PAUSED')],
@@ -687,6 +699,8 @@ def _run_synthetic(world: World, plan):
             await restart()
         alice = node['alice']
         manager = alice.client.transfers
+        if op == 'remove2' and max(step['t'], step['t2']) >= len(pool):
+            return
         if op in ('add', 'mutate', 'remove') and step['t'] >= len(pool):
             return
         if op == 'add':
@@ -726,6 +740,27 @@ def _run_synthetic(world: World, plan):
             if ident in durable:
                 removed_since_write.add(ident)
             sig_steps.append('remove')
+        elif op == 'remove2':
+            # two removals issued back-to-back and running concurrently: the first one (a download with a partial file,
+            # deleted on a slow executor) is still busy while the second one completes
+            idents = [_ident(pool[step['t']]), _ident(pool[step['t2']])]
+            trs = [find(manager, ident) for ident in idents]
+            if any(tr is None or ident not in live for tr, ident in zip(trs, idents)) or idents[0] == idents[1]:
+                sig_steps.append('remove2_absent')
+                return
+            world.net.fired['concurrent_removals'] += 1
+            calls = [world.call(node['alice'], f's{i}:remove2-{k}', manager.remove, tr) for k, tr in enumerate(trs)]
+            for c in calls:
+                await c.task
+            for c in calls:
+                if c.outcome() != 'returned':
+                    world.violate('C17.set', what='remove_raised', exc=type(c.exception).__name__ if c.exception else 'cancelled')
+            for ident in idents:
+                del live[ident]
+                ever_removed.add(ident)
+                if ident in durable:
+                    removed_since_write.add(ident)
+            sig_steps.append('remove2')
         elif op == 'write':
             via = step.get('via', 'write_cache')
             if via == 'write_cache':
